@@ -390,7 +390,7 @@ def exec_case(ctx, case: Dict[str, Any]) -> None:
         return await _drive(case, call)
 
     try:
-        obs, loop = run_virtual(main, tie_seed=case.get("tie"))
+        obs, loop = run_virtual(main, tie_seed=case.get("tie"), max_iterations=20_000)
     except HangDetected as e:
         ctx.violation("hang", f"virtual loop hang: {e}", case)
         ctx.record(case, shape="hang")
@@ -575,7 +575,7 @@ def exec_helper_case(ctx, hname: str, fn, case: Dict[str, Any]) -> None:
 
     timeout = kwargs.get("timeout", 60.0)
     try:
-        obs, loop = run_virtual(main)
+        obs, loop = run_virtual(main, max_iterations=50_000)
     except HangDetected as e:
         ctx.violation("hang", f"{hname}: virtual loop hang: {e}", case)
         return
